@@ -38,6 +38,17 @@ func runC14(c *Ctx) {
 		// two configured users whose names differ only in case
 		users = append(users, authconfig.UserConfig{Username: "Alice", Password: "another password entirely"})
 	}
+	if c.T.Bool(1, 4) {
+		// an account with a long principal-style name
+		users = append(users, authconfig.UserConfig{Username: "svc-" + longName(150) + "@subsidiary.emea.corp.example.com", Password: "a passphrase of several words, with punctuation!"})
+	}
+	// the client's clock is not the service's clock: it stamps its response by its own, and it
+	// names its own workstation
+	skew := []time.Duration{0, 0, 0, time.Second, 10 * time.Minute, 26 * time.Hour, -10 * time.Minute, -72 * time.Hour}[c.T.Choose(8)]
+	if skew != 0 {
+		c.S.Count("fault.clock.ntlm_client_skewed")
+	}
+	ws := []string{"WS", "WS", "LAPTOP-0123456789ABCDEF.branch-office-with-a-long-name.emea.corp.example.com"}[c.T.Choose(3)]
 	db := map[string]string{}
 	for _, u := range users {
 		db[u.Username] = u.Password
@@ -56,14 +67,14 @@ func runC14(c *Ctx) {
 	nops := 4 + c.T.Choose(11)
 	b64 := base64.StdEncoding.EncodeToString
 	mkType3 := func(user, pass, domain string, ch *codec.NTLMChallenge) string {
-		nt, lm, sbk := codec.NTLMv2Response(user, pass, domain, ch.ServerChallenge, c.T.Bytes(8, 1), ch.TargetInfo, time.Now())
-		return b64(codec.NTLMAuthenticate(user, domain, "WS", nt, lm, sbk))
+		nt, lm, sbk := codec.NTLMv2Response(user, pass, domain, ch.ServerChallenge, c.T.Bytes(8, 1), ch.TargetInfo, time.Now().Add(skew))
+		return b64(codec.NTLMAuthenticate(user, domain, ws, nt, lm, sbk))
 	}
 	// mkType3x names one user in the message but derives the response key from another
 	// user's name and password (what an insider who knows only their own password can do)
 	mkType3x := func(nameField, keyUser, pass, domain string, ch *codec.NTLMChallenge) string {
-		nt, lm, sbk := codec.NTLMv2Response(keyUser, pass, domain, ch.ServerChallenge, c.T.Bytes(8, 1), ch.TargetInfo, time.Now())
-		return b64(codec.NTLMAuthenticate(nameField, domain, "WS", nt, lm, sbk))
+		nt, lm, sbk := codec.NTLMv2Response(keyUser, pass, domain, ch.ServerChallenge, c.T.Bytes(8, 1), ch.TargetInfo, time.Now().Add(skew))
+		return b64(codec.NTLMAuthenticate(nameField, domain, ws, nt, lm, sbk))
 	}
 	dummy := &codec.NTLMChallenge{ServerChallenge: []byte("12345678"), TargetInfo: []byte{0, 0, 0, 0}}
 	pendingInsider, pendingSess := "", ""
@@ -103,7 +114,7 @@ func runC14(c *Ctx) {
 					mustAuth = user
 				}
 			}
-			msg = mkType3(user, db[user], []string{"", "CORP"}[c.T.Choose(2)], ch)
+			msg = mkType3(user, db[user], []string{"", "CORP", "subsidiary-of-a-holding.emea.corp.example.com"}[c.T.Choose(3)], ch)
 		case 2:
 			ch := s.chal
 			if ch == nil {
